@@ -125,7 +125,38 @@ pub(crate) fn known_finding_explains(rr: &RoundedRectangle, width: u32, align: S
     let (ins, out) = split(width, a);
     let sa = rr.offset(out.min(i32::MAX as u32) as i32);
     let fa = rr.offset(-(ins.min(i32::MAX as u32) as i32));
-    (radii_confined(&sa) || radii_confined(&fa)) && !pts.is_empty() && pts.iter().all(|p| fa.contains(*p) && !sa.contains(*p))
+    !pts.is_empty() && pts.iter().all(|p| escape_explained(&sa, &fa, *p))
+}
+
+/// `p` lies, inside the rectangle of `r`, in the box of a corner whose radius `confine` changes (the box of
+/// the RAW radius, clipped to the rectangle: the rescaled ellipse lies inside it).
+fn in_changed_corner_box(r: &RoundedRectangle, p: Point) -> bool {
+    let rect = r.rectangle;
+    if !rect.contains(p) {
+        return false;
+    }
+    let (c, cc) = (r.corners, r.confine_radii().corners);
+    let (w, h) = (rect.size.width as i64, rect.size.height as i64);
+    let (px, py) = (p.x as i64 - rect.top_left.x as i64, p.y as i64 - rect.top_left.y as i64);
+    let chk = |raw: Size, conf: Size, left: bool, top: bool| -> bool {
+        if raw == conf {
+            return false;
+        }
+        let (rw, rh) = ((raw.width as i64).min(w), (raw.height as i64).min(h));
+        (if left { px < rw } else { px >= w - rw }) && (if top { py < rh } else { py >= h - rh })
+    };
+    chk(c.top_left, cc.top_left, true, true)
+        || chk(c.top_right, cc.top_right, false, true)
+        || chk(c.bottom_right, cc.bottom_right, false, false)
+        || chk(c.bottom_left, cc.bottom_left, true, false)
+}
+
+/// The mechanism of the KNOWN FINDING at one point: `p` is in fill_area \ stroke_area, inside the stroke area's
+/// rectangle, and in the corner box of a corner whose radius `confine` rescales in one of the two areas. A point
+/// of fill_area \ stroke_area anywhere else (outside the stroke rectangle, on a straight side, at a corner whose
+/// radii fit in both areas) is NOT the known finding.
+pub(crate) fn escape_explained(sa: &RoundedRectangle, fa: &RoundedRectangle, p: Point) -> bool {
+    fa.contains(p) && !sa.contains(p) && sa.rectangle.contains(p) && (in_changed_corner_box(sa, p) || in_changed_corner_box(fa, p))
 }
 
 /// `confine_radii()` changes some radius: the radii do not fit the rectangle (the complement of the
@@ -705,10 +736,14 @@ impl Module for M {
                 {
                     let fb = fa.bounding_box();
                     let mut escaped = None;
+                    let mut all_explained = true;
                     if fb.size.width <= 400 && fb.size.height <= 400 {
                         for p in fb.points() {
                             if fa.contains(p) && !sa.contains(p) {
                                 escaped = Some(p);
+                                if !escape_explained(&sa, &fa, p) {
+                                    all_explained = false;
+                                }
                             }
                         }
                     }
@@ -721,7 +756,10 @@ impl Module for M {
                     if confined {
                         ctx.count("rrect:areas:confined-radii");
                     }
-                    let cls = if confined {
+                    // (the suffix needs more than `confined`: EVERY escaped point must sit at a corner whose radius is
+                    // rescaled, inside the stroke area's rectangle - `escape_explained`; 75 % of the generated shapes
+                    // have rescaled radii, so `confined` alone would be a blanket)
+                    let cls = if confined && all_explained {
                         "C06:rrect-fill-area-not-inside-stroke-area:confined-radii"
                     } else {
                         "C06:rrect-fill-area-not-inside-stroke-area"
@@ -801,7 +839,7 @@ impl Module for M {
                         .filter(|k| r1.rec.map.get(*k) != r3.rec.map.get(*k))
                         .map(|(y, x)| Point::new(*x, *y))
                         .collect();
-                    let explained = conf && !diff.is_empty() && diff.iter().all(|p| fa.contains(*p) && !sa.contains(*p));
+                    let explained = conf && !diff.is_empty() && diff.iter().all(|p| escape_explained(&sa, &fa, *p));
                     let cls = if explained { "rrect-paths-differ:draw-pixels:confined-radii" } else { "rrect-paths-differ:draw-pixels" };
                     ctx.expect(diff.is_empty(), cls, || format!("draw {} pixels {}", r1.rec.fmt_map(), r3.rec.fmt_map()));
                 }
@@ -832,7 +870,7 @@ impl Module for M {
                             painted += 1;
                         }
                         if got != want {
-                            if confined && fa.contains(p) && !sa.contains(p) {
+                            if confined && escape_explained(&sa, &fa, p) {
                                 bad_confined = Some((p, got, want));
                             } else {
                                 bad = Some((p, got, want));
@@ -842,7 +880,7 @@ impl Module for M {
                         if a == 0 && got.is_some() && !rr.contains(p) {
                             // (Inside alignment: stroke area = the shape) the known mechanism: a painted point of
                             // fill_area \ stroke_area of a shape with rescaled radii
-                            if confined && fa.contains(p) && !sa.contains(p) {
+                            if confined && escape_explained(&sa, &fa, p) {
                                 inside_viol_confined = Some(p);
                             } else {
                                 inside_viol = Some(p);
